@@ -297,7 +297,8 @@ def reachable_functions(repo, ci, member_name: str, depth: int = 2) -> List[ast.
             return
         out.append(m.node)
         for n in ast.walk(m.node):
-            if isinstance(n, ast.Call) and isinstance(n.func, ast.Attribute) and isinstance(n.func.value, ast.Name) and n.func.value.id in ("self", "cls"):
+            own_names = {"self", "cls"} | {c.name for c in (ci.mro or [ci])}
+            if isinstance(n, ast.Call) and isinstance(n.func, ast.Attribute) and isinstance(n.func.value, ast.Name) and n.func.value.id in own_names:
                 hm = repo.lookup(ci, n.func.attr)
                 if hm is not None and hm.kind in ("method", "staticmethod", "classmethod") and n.func.attr.startswith("_"):
                     visit(n.func.attr, d - 1)
